@@ -2,7 +2,7 @@
 # usage: tools/seedverify.sh <ID> <X>   (deliverables in /tmp/seed/<ID>.out/<X>.*)
 # Confirms the seeded change independently in a scratch worktree, stores it under seeded/<ID>-<X>/.
 set -u
-id=$1; x=$2; out=/tmp/seed/$id.out
+id=$1; x=$2; out=${SEED_DIR:-/tmp/seed}/$id.out
 export GOFLAGS=-mod=mod GOPROXY=off GOSUMDB=off GOTOOLCHAIN=local
 wt=/tmp/seedverify-$id-$x
 git -C /repo worktree remove --force $wt 2>/dev/null
@@ -29,7 +29,7 @@ if [ $res = ok ]; then
 fi
 echo "seedverify $id $x: $res"
 if [ $res = ok ]; then
-  d=/verif/seeded/$id-$x; mkdir -p $d
+  d=/verif/seeded/$id-${SEED_NAME:-$x}; mkdir -p $d
   cp $out/$x.patch.diff $d/patch.diff; cp $out/$x.demo_test.go $d/demo_test.go
   cp $out/$x.meta.json $d/agent_meta.json
 fi
